@@ -91,6 +91,7 @@ func runMutantsFor(c *Ctx) {
 		ok, msg := runMutant(m, "quick", baseline)
 		// a mutant's program (~2 GB) is garbage now: give it back before loading the next one
 		descCache = map[ssa.Value]string{}
+		resetCachesG4()
 		debug.FreeOSMemory()
 		if ok {
 			c.selftest["mutants_reported"]++
